@@ -135,16 +135,15 @@ class LocalCallModel(Model):
             v = self.lib.conform(st, v, decl[f], f"{cls}.{f}")
             v = self.field_init(st, cls, f, v)
             eng.store_field(st, ref, f, v)
-        hook = decl.get("_validate")
-        if hook:
-            for vc in hook:
-                fc = reg.find_method(cls, vc)
-                # validators are applied through their contract
-                if fc is not None:
-                    fld = fc.params.get("_field")
-                    self.lib.apply_contract(
-                        st, fc, None, [eng.load_field(st, ref, fld)], {},
-                        node.lineno)
+        for fld, vname in (decl.get("_validate") or {}).items():
+            fc = reg.find_method(cls, vname)
+            if fc is None:
+                raise self.E.Unsupported(f"validator {cls}.{vname} has no "
+                                         f"contract")
+            cur = eng.load_field(st, ref, fld)
+            newv = self.lib.apply_contract(st, fc, None, [cur], {},
+                                           node.lineno)
+            eng.store_field(st, ref, fld, newv)
         return ref
 
     def field_init(self, st, cls, f, v):
@@ -589,8 +588,30 @@ class DiskModel(Model):
             st.assume(n >= oldn)
             st.ghost["FXN"] = VInt(n)
 
+    def fs_access(self, st, path, line, what):
+        """C17: every file-system access of a function with a declared
+        root stays (lexically) inside that root."""
+        eng = self.eng
+        fc = eng.cur
+        if fc is None or not fc.fs_root:
+            return
+        saved = st.locals
+        loc = dict(saved)
+        for k_, v_ in (st.old["locals"] if st.old else {}).items():
+            if v_ is not None:
+                loc[k_] = v_
+        st.locals = loc
+        try:
+            root = eng.coerce(st, eng.spec_eval(st, fc.fs_root), "U")
+        finally:
+            st.locals = saved
+        eng.oblige(st, f"fs-inside-root({what})", line,
+                   z3.Or(INSIDE(root, path), path == root), ["C17"])
+
     def call_other_method(self, st, recv, name, node):
         eng = self.eng
+        if isinstance(recv, VU) and name in ("read_text", "mkdir"):
+            self.fs_access(st, recv.t, node.lineno, name)
         if isinstance(recv, VU) and name == "read_text":
             self._facts(st)
             eng.eval_args(st, node)
@@ -862,6 +883,7 @@ class IOModel(Model):
             mode = args[1] if len(args) > 1 else kwargs.get("mode")
             m = mode.lit if isinstance(mode, VU) and mode.lit else "r"
             self._fs()._facts(st)
+            self._fs().fs_access(st, path, node.lineno, "open")
             f = eng.alloc(st, "FileObj")
             eng.store_field(st, f, "path", VU(path))
             eng.store_field(st, f, "writing", VBool("w" in m or "a" in m))
@@ -1021,6 +1043,7 @@ class IOModel(Model):
         if isinstance(recv, VU) and name == "replace" and len(node.args) == 1:
             dst = eng.coerce(st, eng.eval(st, node.args[0]), "U")
             src = recv.t
+            self._fs().fs_access(st, dst, node.lineno, "replace")
             ds = st.ghost["DSTATE"]
             # C06: only a completely written (closed) file is renamed into place
             eng.oblige(st, "rename-source-complete", node.lineno,
@@ -1071,3 +1094,114 @@ class FStringNames(Model):
 
 
 ALL = ALL + [IOModel]
+
+
+# ---------------------------------------------------------------------------
+ISABS = z3.Function("ISABS", U, BoolS)
+HASDD = z3.Function("HASDD", U, BoolS)        # ".." among the parts
+INSIDE = z3.Function("INSIDE", U, U, BoolS)   # INSIDE(root, p): p lexically inside root
+PARTS = z3.Function("PARTS", U, U)
+NPARTS = z3.Function("NPARTS", U, IntS)
+PART = z3.Function("PART", U, IntS, U)        # i-th component
+PPREFIX = z3.Function("PPREFIX", U, IntS, U)  # path of the first k components
+
+
+class PathModel2(Model):
+    """pathlib (lexical model, A-SYMLINK): p.parts, p.name, p.parent,
+    p.is_absolute(), a / b, '..' in p.parts, p.is_relative_to(q),
+    Path().joinpath(*p.parts[:k])."""
+
+    def axioms(self):
+        a = z3.Const("a!p", U)
+        b = z3.Const("b!p", U)
+        c = z3.Const("c!p", U)
+        return [
+            # joining with an absolute right operand discards the left one
+            z3.ForAll([a, b], z3.Implies(ISABS(b), PJOIN(a, b) == b),
+                      patterns=[PJOIN(a, b)]),
+            z3.ForAll([a, b], ISABS(PJOIN(a, b)) == z3.Or(ISABS(a), ISABS(b)),
+                      patterns=[PJOIN(a, b)]),
+            z3.ForAll([a, b], HASDD(PJOIN(a, b)) == z3.Or(
+                HASDD(b), z3.And(z3.Not(ISABS(b)), HASDD(a))),
+                patterns=[PJOIN(a, b)]),
+            # a relative path without '..' stays inside the directory it is
+            # joined to (lexical containment)
+            z3.ForAll([a, b], z3.Implies(
+                z3.And(z3.Not(ISABS(b)), z3.Not(HASDD(b))),
+                INSIDE(a, PJOIN(a, b))), patterns=[PJOIN(a, b)]),
+            z3.ForAll([a, b, c], z3.Implies(
+                z3.And(INSIDE(a, b), z3.Not(ISABS(c)), z3.Not(HASDD(c))),
+                INSIDE(a, PJOIN(b, c))), patterns=[INSIDE(a, PJOIN(b, c))]),
+            # the directory of a file inside the root that is not the root
+            # itself is inside (or is) the root
+            z3.ForAll([a, b], z3.Implies(
+                z3.And(z3.Not(ISABS(b)), z3.Not(HASDD(b))),
+                z3.Or(INSIDE(a, PPARENT(PJOIN(a, b))),
+                      PPARENT(PJOIN(a, b)) == a)),
+                patterns=[PPARENT(PJOIN(a, b))]),
+            z3.ForAll([a], INSIDE(a, a), patterns=[INSIDE(a, a)]),
+            # the last component of a join is the last component of its
+            # (relative) right operand
+            z3.ForAll([a, b], z3.Implies(z3.Not(ISABS(b)),
+                                         PNAME(PJOIN(a, b)) == PNAME(b)),
+                      patterns=[PJOIN(a, b)]),
+        ]
+
+    def getattr(self, st, obj, attr, line):
+        if isinstance(obj, VU):
+            if attr == "parts":
+                v = VU(PARTS(obj.t))
+                v.parts_of = obj.t
+                return v
+        return None
+
+    def contains(self, st, container, x, line):
+        if isinstance(container, VU) and getattr(container, "parts_of",
+                                                 None) is not None:
+            if isinstance(x, VU) and x.lit == "..":
+                return HASDD(container.parts_of)
+        return None
+
+    def call_other_method(self, st, recv, name, node):
+        eng = self.eng
+        if isinstance(recv, VU):
+            if name == "is_absolute":
+                return VBool(ISABS(recv.t))
+            if name == "is_relative_to":
+                other = eng.coerce(st, eng.eval(st, node.args[0]), "U")
+                return VBool(INSIDE(other, recv.t))
+        return NotImplemented
+
+    def len_of(self, st, v, line):
+        if isinstance(v, VU) and getattr(v, "parts_of", None) is not None:
+            return VInt(NPARTS(v.parts_of))
+        if isinstance(v, VRef) and v.cls == "MemView":
+            return self.eng.load_field(st, v, "size")
+        return None
+
+    def getitem(self, st, obj, idx, line):
+        if isinstance(obj, VU) and getattr(obj, "parts_of", None) is not None \
+                and isinstance(idx, VInt):
+            return VU(PART(obj.parts_of, idx.t))
+        return None
+
+    def slice(self, st, obj, lo, hi, line):
+        if isinstance(obj, VU) and getattr(obj, "parts_of", None) is not None \
+                and lo is None and isinstance(hi, VInt):
+            v = VU(PARTS(PPREFIX(obj.parts_of, hi.t)))
+            v.prefix_of = (obj.parts_of, hi.t)
+            v.parts_of = PPREFIX(obj.parts_of, hi.t)
+            return v
+        return None
+
+    def compare(self, st, op, a, b, line):
+        # parts[:k] == parts'[:k]  <=>  equal prefixes
+        if isinstance(op, (ast.Eq, ast.NotEq)) and isinstance(a, VU) and \
+                isinstance(b, VU) and getattr(a, "prefix_of", None) and \
+                getattr(b, "prefix_of", None):
+            e = PPREFIX(*a.prefix_of) == PPREFIX(*b.prefix_of)
+            return e if isinstance(op, ast.Eq) else z3.Not(e)
+        return None
+
+
+ALL = ALL + [PathModel2]
